@@ -369,7 +369,22 @@ def rule_key_layout(ctx: Ctx, rep: Report) -> None:
     rep.floor("C07.key_layout", 1)
 
 
+def rule_no_stale_cache_(ctx: Ctx, rep: Report) -> None:
+    """C07.no_stale_cache: a memoized mutable answer is never handed out or edited; a cached_property lives only in a frozen dataclass (see sigcommon.rule_no_stale_cache)."""
+    from rules.sigcommon import rule_no_stale_cache
+    rule_no_stale_cache(ctx, rep, "C07.no_stale_cache", ('btclib.bip32',), 1)
+
+
+def rule_single_pass_(ctx: Ctx, rep: Report) -> None:
+    """C07.single_pass: a parameter admitted as an Iterable is walked at most once per path (see sigcommon.rule_single_pass)."""
+    from rules.sigcommon import rule_single_pass
+    rule_single_pass(ctx, rep, "C07.single_pass", ('btclib.bip32',), 1)
+
+
 RULES = [
+    ("C07.no_stale_cache", rule_no_stale_cache_),
+    ("C07.single_pass", rule_single_pass_),
+
     ("C07.key_layout", rule_key_layout),
     ("C07.no_inplace_growth", rule_no_inplace_growth_),
     ("C07.params_forwarded", rule_params_forwarded_),
@@ -385,6 +400,12 @@ RULES = [
 ]
 
 CONTROLS = [
+    {"rule": "C07.no_stale_cache", "name": "the parsed path is memoized and handed out", "module": "btclib.bip32.der_path",
+     "edit": lambda ctx: M.sub_module_expr(ctx, "btclib.bip32.der_path", lambda n: isinstance(n, ast.FunctionDef) and n.name == "_pairs_from_der_path_str",
+                                           lambda n: "@__import__('functools').lru_cache(maxsize=64)\n" + ast.unparse(n))},
+    {"rule": "C07.single_pass", "name": "the path is checked in one walk and copied in another", "module": "btclib.bip32.der_path",
+     "edit": lambda ctx: M.sub_expr(ctx, "btclib.bip32.der_path._indexes_from_der_path", lambda n: isinstance(n, ast.For), lambda n: norm(n).replace(norm(n.iter), "der_path", 1))},
+
     {"rule": "C07.no_inplace_growth", "name": "the HMAC data is the key itself, grown in place (F20)", "module": B,
      "edit": lambda ctx: M.sub_expr(ctx, f"{B}.__prv_key_derivation", lambda n: isinstance(n, ast.Assign) and norm(n.targets[0]) == "xb" and isinstance(n.value, ast.BinOp),
                                     "xb += index.to_bytes(4, byteorder='big', signed=False)")},
